@@ -116,7 +116,7 @@ def run(P, R, tier):
             gn = [C.node(s) for s in gates]
             ok = bool(gn) and C.every_path_passes(C.ENTRY, rn, gn)
             # and the gate's passing branch is the only way on: the raising branch does not reach the read
-            ok2 = all(not C.can_reach(C.node(s.body[0]), rn) for s in gates) if gates else False
+            ok2 = all(not C.can_reach(C.node(next(x for x in s.body if isinstance(x, ast.Raise))), rn) for s in gates) if gates else False
             R.check(ok and ok2, 'C19.b', g, c, 'the listing-equality gate (listing == expected sub-parts, else raise) dominates the read of the directory',
                     'the directory of sub-parts can be read without the listing having been compared with the expected sub-part set: a stale listing yields a part with missing rows')
         R.check(bool(g.tags.get('retry')), 'C19.b', g, None, 'the gate raises inside a retried function', 'the reader with the gate is not retried: a stale listing aborts instead of being retried',
@@ -132,8 +132,8 @@ def run(P, R, tier):
         # instances pass through unchanged
         first_if = [s for s in coerce.node.body if isinstance(s, ast.If)]
         ok = bool(first_if) and 'isinstance' in norm(first_if[0].test) and 'AbstractFileSystem' in norm(first_if[0].test) \
-            and isinstance(first_if[0].body[0], ast.Return) and isinstance(first_if[0].body[0].value, ast.Name) \
-            and first_if[0].body[0].value.id == 'filesystem'
+            and astq.real(first_if[0].body) and isinstance(astq.real(first_if[0].body)[0], ast.Return) and isinstance(astq.real(first_if[0].body)[0].value, ast.Name) \
+            and astq.real(first_if[0].body)[0].value.id == 'filesystem'
         R.check(ok, 'C19.e', coerce, first_if[0].test if first_if else None, 'validate_coerce_filesystem returns filesystem instances unchanged',
                 'a user-supplied filesystem instance is not passed through unchanged')
     nfs = 0
